@@ -485,6 +485,35 @@ var natives = map[string]extFn{
 	},
 	"time.Since":                   func(e *Engine, _ *frame, fn *ssa.Function, a []value) value { return uint64(0) },
 	"(time.Duration).Milliseconds": func(e *Engine, _ *frame, fn *ssa.Function, a []value) value { return uint64(0) },
+	// sync.Map: the entries live in a map value stored in the struct's own `dirty` field, so that assigning a
+	// fresh sync.Map{} to the variable empties it as it does natively
+	"(*sync.Map).Load": func(e *Engine, _ *frame, fn *ssa.Function, a []value) value {
+		m := e.syncMapOf(fn, a[0].(*value), false)
+		if m != nil {
+			if i := e.mapFind(m, a[1]); i >= 0 {
+				return tuple{m.vals[i], true}
+			}
+		}
+		return tuple{iface{}, false}
+	},
+	"(*sync.Map).Store": func(e *Engine, _ *frame, fn *ssa.Function, a []value) value {
+		e.mapSet(e.syncMapOf(fn, a[0].(*value), true), a[1], a[2])
+		return nil
+	},
+	"(*sync.Map).Delete": func(e *Engine, _ *frame, fn *ssa.Function, a []value) value {
+		if m := e.syncMapOf(fn, a[0].(*value), false); m != nil {
+			e.mapDelete(m, a[1])
+		}
+		return nil
+	},
+	"(*sync.Map).LoadOrStore": func(e *Engine, _ *frame, fn *ssa.Function, a []value) value {
+		m := e.syncMapOf(fn, a[0].(*value), true)
+		if i := e.mapFind(m, a[1]); i >= 0 {
+			return tuple{m.vals[i], true}
+		}
+		e.mapSet(m, a[1], a[2])
+		return tuple{a[2], false}
+	},
 	"(*sync.WaitGroup).Add": func(e *Engine, _ *frame, _ *ssa.Function, a []value) value {
 		e.wgAdd(a[0].(*value), int(sext(a[1].(uint64), 64)))
 		return nil
@@ -1009,4 +1038,32 @@ func reMin(re *syntax.Regexp) int {
 		return m
 	}
 	return 0
+}
+
+// syncMapOf returns the map value that models the entries of the sync.Map at p (created on demand).
+func (e *Engine) syncMapOf(fn *ssa.Function, p *value, create bool) *mapv {
+	st := fn.Signature.Recv().Type().(*types.Pointer).Elem().Underlying().(*types.Struct)
+	fi := -1
+	for i := 0; i < st.NumFields(); i++ {
+		if st.Field(i).Name() == "dirty" {
+			fi = i
+		}
+	}
+	if fi < 0 {
+		e.unsupported("sync.Map without a dirty field")
+	}
+	sv, ok := (*p).(structure)
+	if !ok {
+		e.unsupported("sync.Map value of unexpected shape")
+	}
+	if m, ok := sv[fi].(*mapv); ok && m != nil {
+		return m
+	}
+	if !create {
+		return nil
+	}
+	m := &mapv{kt: types.NewInterfaceType(nil, nil)}
+	e.logStore(&sv[fi])
+	sv[fi] = m
+	return m
 }
